@@ -56,6 +56,8 @@ func genCase(engine, mode, tier string, r *Rng, id string, i int) []string {
 		}
 		e := genSeq(r, mode, steps)
 		return []string{e.Line(id, "SEQ")}
+	case "grp":
+		return []string{genGrp(r, tier).Line(id, "GRP")}
 	}
 	fmt.Fprintln(os.Stderr, "unknown engine", engine)
 	os.Exit(2)
